@@ -1,7 +1,7 @@
 """C02 concretiser (family P): sequential multi-connection programs on a real DB, checked against a
 snapshot model (each connection reads the committed state as of its last transaction boundary,
 plus its own changes).  Bound: 2 storages (mapping, file) x fixed + 60 (thorough: 600) random
-programs of <= 16 steps over 3 connections and 3 objects (seed VERIF_SEED); pooled reuse included;
+programs of <= 16 steps over 3 connections and 3 objects (read, write, savepoint, commit, abort, reopen; seed VERIF_SEED); pooled reuse included;
 the fixed and the first 20 random programs again with a frozen wall clock (adjacent tids: last + 1).
 Thread schedules are NOT explored here."""
 import logging
@@ -86,6 +86,8 @@ def run_program(prog, kind):
                     cn['tm'].abort()
                 cn['own'] = {}
                 cn['snap'] = dict(committed)
+            elif kind_ == 'savepoint':
+                cn['tm'].savepoint()
             elif kind_ == 'abort':
                 cn['tm'].abort()
                 cn['own'] = {}
@@ -113,6 +115,9 @@ def run_program(prog, kind):
 
 
 FIXED = [
+    # a conflict while the data of a savepoint is committed: everything this transaction wrote is forgotten
+    [('readall', 1), ('write', 1, 'x'), ('write', 1, 'y'), ('savepoint', 1), ('write', 2, 'x'), ('commit', 2),
+     ('commit', 1), ('readall', 1), ('abort', 1), ('readall', 1)],
     # the reader is a connection that did not create the objects (connection 0 is the pooled creator: all cached)
     [('read', 2, 'x'), ('write', 1, 'x'), ('write', 1, 'y'), ('commit', 1), ('read', 2, 'y'),
      ('readall', 2), ('abort', 2), ('readall', 2)],
@@ -137,6 +142,8 @@ def random_program(rnd):
             prog.append(('write', k, rnd.choice(NAMES)))
         elif r < 0.7:
             prog.append(('commit', k))
+        elif r < 0.74:
+            prog.append(('savepoint', k))
         elif r < 0.78:
             prog.append(('abort', k))
         elif r < 0.86:
